@@ -1251,7 +1251,7 @@ class Engine:
                             return o == "!="
                     else:
                         cs.append(bv(p, 8) == bv(q, 8))
-                eq = True if not cs else (cs[0] if len(cs) == 1 else z3.And(cs))
+                eq = True if not cs else simp(cs[0] if len(cs) == 1 else z3.And(cs))
                 return eq if o == "==" else self.not_(eq)
             raise EngineError("string compare with symbolic length at %s" % pos)
         if o in ("<", "<=", ">", ">="):
